@@ -18,6 +18,11 @@ CFG = {
             "msgreply",
             64,
             800
+        ],
+        [
+            "c06inplace",
+            400,
+            4000
         ]
     ],
     # subs whose model output is proved equal to the independent specification encoder
@@ -25,11 +30,16 @@ CFG = {
     "spec_subs": {"msg_enc": ["theories/Proofs/CodecP.vo", "theories/Model/MsgRun.vo"],
                   # reply headers: run_replyhdr / run_replyhdr_out = Spec/ReplyHdr.v (C06_reply_spec, C06_reply_out_spec)
                   "replyhdr": ["theories/Proofs/ReplySpecP.vo", "theories/Model/MsgRun.vo"],
-                  "replyhdr_out": ["theories/Proofs/ReplySpecP.vo", "theories/Model/MsgRun.vo"]},
-    "rule": "msg: boundary-heavy message values (string lengths 0/1/254/255/256/65535/65536, ttl {0,1,2^31,2^32-1}, span patterns, 0..255 headers, small payload capacities) encoded by the real Frame.write+WriteOut vs the model (msg_enc); the valid encoding, junk-extended, random strict prefixes and byte-mutated payloads decoded by the real message.read vs the model (msg_dec); frames ++ junk, truncated frames and mutated size/reserved fields through the real Frame.ReadIn (frame_in). msgwire: a real client channel (frame pool with stale header bytes) against a raw TCP peer that parses/produces frames with an encoder written from the protocol document; sub callwire: the call req frames the real reqResWriter put on the wire (1..3 fragments) vs the reqResWriter model (Model/CallWire.v call_frames, the C01 writer inside), and for an unfragmented call req byte equality with a complete-payload encoder written from the protocol document (flags ttl tracing service~1 headers csumtype csum arg1~2 arg2~2 arg3~2). msgreply (sub replyhdr): a raw client written from the protocol document opens a connection to a real listening channel with an init req whose id is taken from {0, 1, 2, 7, 0x01000000, 0xFFFFFFFE, random} and runs a script of requests with ids from the same set (ping; call answered in one frame / in several frames / by an error frame: no such method, handler system error, cancel frame, channel closing, id of a call in flight; a fragmented call req; two calls answered in reverse order; handshake refusals: version 1, first frame not an init req): the (type, id) headers of every answer vs the reply-header model (run_replyhdr, proved equal to Spec/ReplyHdr.v) and the oracle that every frame of an answer carries the request id, the answering type and (call res) the arguments of that request; sub replyhdr_out: a real client against a raw listener that answers the init req with id + delta (delta in {0, 1, -1, 2^31-1, 6}): id of the init req, acceptance iff delta = 0, id of the error frame for a refused init res, id of the cancel frame of an abandoned call. Every case counts as non-trivial; distinct by input.",
+                  "replyhdr_out": ["theories/Proofs/ReplySpecP.vo", "theories/Model/MsgRun.vo"],
+                  # in-place accessors: run_c06inplace / run_c06ipwire = Spec/C06InPlaceSpec.v (C06_inplace_spec);
+                  # Proofs/C06InPlaceP.v does not depend on the regenerated functions
+                  "c06inplace": ["theories/Proofs/C06InPlaceP.vo", "theories/Model/C06InPlace.vo"],
+                  "c06ipwire": ["theories/Proofs/C06InPlaceP.vo", "theories/Model/C06InPlace.vo"]},
+    "rule": "msg: boundary-heavy message values (string lengths 0/1/254/255/256/65535/65536, ttl {0,1,2^31,2^32-1}, span patterns, 0..255 headers, small payload capacities) encoded by the real Frame.write+WriteOut vs the model (msg_enc); the valid encoding, junk-extended, random strict prefixes and byte-mutated payloads decoded by the real message.read vs the model (msg_dec); frames ++ junk, truncated frames and mutated size/reserved fields through the real Frame.ReadIn (frame_in). msgwire: a real client channel (frame pool with stale header bytes) against a raw TCP peer that parses/produces frames with an encoder written from the protocol document; sub callwire: the call req frames the real reqResWriter put on the wire (1..3 fragments) vs the reqResWriter model (Model/CallWire.v call_frames, the C01 writer inside), and for an unfragmented call req byte equality with a complete-payload encoder written from the protocol document (flags ttl tracing service~1 headers csumtype csum arg1~2 arg2~2 arg3~2). msgreply (sub replyhdr): a raw client written from the protocol document opens a connection to a real listening channel with an init req whose id is taken from {0, 1, 2, 7, 0x01000000, 0xFFFFFFFE, random} and runs a script of requests with ids from the same set (ping; call answered in one frame / in several frames / by an error frame: no such method, handler system error, cancel frame, channel closing, id of a call in flight; a fragmented call req; two calls answered in reverse order; handshake refusals: version 1, first frame not an init req): the (type, id) headers of every answer vs the reply-header model (run_replyhdr, proved equal to Spec/ReplyHdr.v) and the oracle that every frame of an answer carries the request id, the answering type and (call res) the arguments of that request; sub replyhdr_out: a real client against a raw listener that answers the init req with id + delta (delta in {0, 1, -1, 2^31-1, 6}): id of the init req, acceptance iff delta = 0, id of the error frame for a refused init res, id of the cancel frame of an abandoned call. c06inplace (sub c06inplace): the SECONDARY, in-place decoders / encoders -- for random call req frames (flags {0,1,2,0xfe,0xff,random}, ttl {0,1,1000,2^31,2^32-1,random} ms, span patterns zero / root / child with three different ids / all ones / single high bits / random, service of 0/1/7/30/254/255 bytes, 0..12 transport headers incl. repeated keys and the empty key, checksum types 0..3, arg1/arg2/arg3, arg2 ending the frame) laid out by an encoder written from the protocol document: callReqSpan, lazyCallReq.Span / TTL / Service / HasMoreFragments, hasMoreFragments, finishesCall, the payload after SetTTL(d) and the error frame Connection.SendSystemError(id, callReqSpan(frame), err) queues vs the FIELDS (model run_c06inplace proved equal to Spec/C06InPlaceSpec.v) and vs an oracle from the layout; frames with a flags byte of every type (isCallResOK, lazyCallRes.OK, hasMoreFragments, finishesCall) and error frames (lazyError.Code); the parse-dependent accessors (newLazyCallReq: Caller, Method, RoutingDelegate, RoutingKey, arg scheme, checksum type, arg2 / arg3 and their offsets, isArg2Fragmented; newLazyCallRes: ArgScheme, Arg2, Arg2IsFragmented, OK) by oracle only (sub c06ipparse). Sub c06ipwire, end to end: a raw client sends a call req with a non-root / boundary span to a real relay channel whose RelayHost answers busy / refuses / has no destination / routes to a dead address / routes to a backend that never answers (relay timeout, ttl 120 ms), and in process Connection.handleCallReq on a connection in state start-close / inbound-closed: the error frame observed must carry the call's id and its 25 tracing bytes (spanid parentid traceid flags as sent). msg additionally truncates every decoded message exactly in front of every field of its layout and one byte into it (one-byte fields included) and requires an error for every strict prefix, for all message kinds. Every case counts as non-trivial; distinct by input.",
     "trusted_base": COMMON_TRUSTED + [
         "regenerated from source on every run and proved equal to the hand model: (C06_typedbuf_generated) every loop-free method of typed.ReadBuffer / typed.WriteBuffer and the Update methods of the deferred references (Gen/GenTypedBuf.v); (C06_messages_generated) read/write of callReq, callRes, errorMessage, cancelMessage, initMessage, transportHeaders (loops included), noBodyMsg, callResContinue, Span, FrameHeader (Gen/GenMessages.v). Translator: go2v/methods.go (state-passing Gallina over the Go state: remaining []byte + err / backing array + offset,length + err; panics = None; counted for => go_for, range over a map => go_range over its entries in a universally quantified order). Trusted there: the translator, the per-construct semantics Base/GoSem.v (slices with cap abstracted to len, BigEndian, copy, nil, map as entry list / insertion log), the views absR/absW/abs<Message> of Proofs/GenTypedBufP.v, Proofs/GenMessagesP.v, and the typing hypotheses written in the theorems (byte values 0..255, []byte holds bytes, FrameHeader.reserved is the zero array)",
         "modelled by hand (tied by correspondence only): Frame.write/read/WriteOut/ReadBody/ReadIn (interface-typed message, io.Reader/io.Writer), ReadUvarint/WriteUvarint (loops inside encoding/binary), typed.Reader/Writer; regenerated from source: SetPayloadSize, PayloadSize, all message type codes, MaxFramePayloadSize, FrameHeaderSize",
+        "in-place accessors (C06_inplace_generated, C06_inplace_span_generated, C06_inplace_error_frame_generated): messages.go callReqSpan, relay_messages.go lazyCallReq.Span / TTL / SetTTL / Service / HasMoreFragments, lazyError.Code, isCallResOK, lazyCallRes.OK, hasMoreFragments, finishesCall, frame.go SizedPayload / messageType are regenerated from the source on every run by the method translator (go2v/c06inplace.go -> Gen/GenC06InPlace.v) and proved equal to Model/C06InPlace.v, which is proved to return the fields of the message at the places Spec/Protocol.v puts them (C06_inplace_callreq, C06_inplace_bytes, C06_inplace_spec). Trusted there: the translator incl. its extensions for embedded structs / promoted fields and for binary.BigEndian.PutUintN into a slice expression of a []byte field (Base/GoSem.v bs_put), the view of a Frame as header + payload bytes (buffer / headerBuffer alias the same array and are not represented), []byte holds bytes. The parsing constructors newLazyCallReq / newLazyCallRes stay hand-modelled (Model/RelayLazy.v, property C08, lazy_callreq_layout) and are tied here by oracle only; the call sites that pass the span on (relay.go, inbound.go) are tied by the end-to-end cases of engine c06inplace",
         "Spec/Protocol.v and Spec/ProtocolCall.v: the independent encoders (message headers; complete call req / call res payload), written from the protocol document with literals",
         "modelled by hand (tied by correspondence, sub callwire): reqResWriter.newFragment/flushFragment around the fragmenting writer (Model/CallWire.v)",
         "reply headers (C06_reply_headers_generated, C06_out_headers_generated, C06_reply_sites_closed): regenerated from source on every run by go2v/replyids.go + go2v/c06targets.go -- Gen/GenReplySites.v (per function of the answer path the list of the id expressions at ALL its sites of one kind: call argument, composite-literal key, assignment, map index; local variables resolved to their last dominating assignment; the table of every FrameHeader.ID/.messageType write, every Connection.SendSystemError/protocolError call and every id-carrying message literal of the package) and Gen/GenReplyIds.v (ID()/messageType() of every message struct, Frame.write's header assignments, readMessage's id result, outboundHandshake's id test). Trusted there: the site selection (by source text of the callee / lvalue and by go/types for the table), the resolution rule for local variables, hints `frame.Header.ID => fid`, `response.mex.msgID / w.mex.msgID => mex_id`; the chaining of the pieces (Proofs/ReplyHdrP.v code_*) follows the Go call structure by hand and is tied by engine msgreply"
